@@ -228,14 +228,34 @@ func OwnCallsTo(f *ssa.Function, keys ...string) []ssa.CallInstruction {
 // RecursesInLoop tells whether f calls itself from inside a loop of its (inlined) body: directly, or by handing
 // itself (or a closure that calls it) as the function argument a helper applies to the elements in its own loop.
 func RecursesInLoop(f *ssa.Function) bool {
+	return RecursesInLoopVia(f, func(k string) bool { return strings.HasPrefix(k, "slices.") })
+}
+
+// RecursesInLoopVia is RecursesInLoop with the library helpers that count given by the caller (a rule that needs the
+// elements of two lists compared PAIRWISE accepts slices.EqualFunc but not slices.ContainsFunc).
+func RecursesInLoopVia(f *ssa.Function, helper func(calleeKey string) bool) bool {
 	rec := false
 	WithHost(f, func() {
 		loopCalled := map[*ssa.Function]bool{}
+		excluded := map[*ssa.Function]bool{}
 		// f (or a closure calling f) handed to an element-wise helper of the standard library (slices.EqualFunc,
 		// slices.ContainsFunc, slices.IndexFunc, ...): the helper applies it to the elements in its own loop
 		for _, c := range Calls(f) {
 			sc := c.Common().StaticCallee()
 			if sc == nil || !strings.HasPrefix(CalleeKey(c), "slices.") {
+				continue
+			}
+			if !helper(CalleeKey(c)) {
+				// a closure handed to a helper that does not count is not a per-element call of the rule's kind
+				for _, a := range c.Common().Args {
+					for _, o := range append(Origins(a), a) {
+						if g, ok := o.(*ssa.MakeClosure); ok {
+							if fn, ok := g.Fn.(*ssa.Function); ok {
+								excluded[fn] = true
+							}
+						}
+					}
+				}
 				continue
 			}
 			for _, a := range c.Common().Args {
@@ -259,7 +279,7 @@ func RecursesInLoop(f *ssa.Function) bool {
 			return
 		}
 		for _, c := range Calls(f) {
-			if !OnCycle(c) && !loopCalled[c.Parent()] {
+			if !OnCycle(c) && !loopCalled[c.Parent()] || excluded[c.Parent()] {
 				continue
 			}
 			if c.Common().StaticCallee() == f {
